@@ -167,6 +167,23 @@ func verifEnqueueItems(m *Multiplexer) int {
 	return len(m.enqueueWindowIncrement) + len(m.enqueueCloseWrite) + len(m.enqueueClose)
 }
 
+// verifQueuedFor reports whether a window increment or a close-write of the
+// given stream is still waiting for the enqueue loop.
+func verifQueuedFor(m *Multiplexer, stream uint64) bool {
+	found := false
+	for i, n := 0, len(m.enqueueWindowIncrement); i < n; i++ {
+		u := <-m.enqueueWindowIncrement
+		found = found || u.stream == stream
+		m.enqueueWindowIncrement <- u
+	}
+	for i, n := 0, len(m.enqueueCloseWrite); i < n; i++ {
+		u := <-m.enqueueCloseWrite
+		found = found || u == stream
+		m.enqueueCloseWrite <- u
+	}
+	return found
+}
+
 // verifRunEnqueue runs the real Multiplexer.enqueue loop with the multiplexer's
 // closed channel replaced by a closed one for the duration of the call, so that
 // every select of the loop may also take the termination case: all orders of
